@@ -211,14 +211,18 @@ func c02Witness(kind string) bookSpec {
 }
 
 func runClosure(b bookSpec, hdr ...*options.HeaderOption) string {
-	w := newWorkspace()
-	defer w.cleanup()
-	w.writeCSVBook("", baseBook())
-	w.writeCSVBook("", b)
 	ro := runOpts{}
 	if len(hdr) > 0 {
 		ro.Header = hdr[0]
 	}
+	return runClosureRO(b, ro)
+}
+
+func runClosureRO(b bookSpec, ro runOpts) string {
+	w := newWorkspace()
+	defer w.cleanup()
+	w.writeCSVBook("", baseBook())
+	w.writeCSVBook("", b)
 	if err := w.genProto(ro); err != nil {
 		return "closed rejected"
 	}
@@ -262,6 +266,11 @@ func init() {
 	regImpl("c02.closure", func(a []string) string {
 		r := rand.New(rand.NewSource(mustInt(a[0])))
 		b, hdr := genC02Book(r)
-		return runClosure(b, hdr)
+		ro := runOpts{Header: hdr}
+		// proto output options: the written files (and the imports between them) are named with a suffix
+		if r.Intn(3) == 0 {
+			ro.ProtoOut = &options.ProtoOutputOption{FilenameSuffix: []string{"_conf", "_gen", ".v1"}[r.Intn(3)]}
+		}
+		return runClosureRO(b, ro)
 	})
 }
